@@ -2543,7 +2543,7 @@ func (self *LockDB) UnLock(serverProtocol ServerProtocol, command *protocol.Lock
 
 			if currentLock.refCount == 0 {
 				lockManager.FreeLock(currentLock)
-				if lockManager.refCount == 0 {
+				if lockManager.refCount == 0 && command.Flag&protocol.UNLOCK_FLAG_SUCCED_TO_LOCK_WAIT == 0 {
 					self.RemoveLockManager(lockManager)
 				}
 			}
@@ -2859,6 +2859,10 @@ func (self *LockDB) addUnlockLockCommandToWaitLock(lockManager *LockManager, com
 
 	if self.subscribeChannels != nil && command.TimeoutFlag&protocol.TIMEOUT_FLAG_PUSH_SUBSCRIBE != 0 {
 		_ = self.subscribeChannels[lockManager.glockIndex].Push(command, protocol.RESULT_TIMEOUT, uint16(lockManager.locked), 0, lockManager.GetLockData())
+	}
+	if lockManager.refCount == 0 {
+		// not queued again, and the released hold was the last thing that referred to the key
+		self.RemoveLockManager(lockManager)
 	}
 	lockManager.glock.Unlock()
 	_ = serverProtocol.FreeLockCommand(command)
